@@ -44,8 +44,16 @@ SINKS    == {"format-string", "to-string", "debug-print", "equal-self", "equal-c
 \* entries at which a sink recipe is placed (the walk is the same Go code wherever it is called from; three suffice)
 SINKENTRIES == {"top", "handler", "macro-expansion"}
 
+\* a TRAVERSER (a builtin that walks a container while calling back into lisp) whose callback changes the very container
+\* being walked: it shrinks, grows, empties or overwrites it between two steps of the walk
+TRAVERSERS == {"map", "foldl", "foldr", "select", "reject", "any", "all", "stable-sort", "stable-sort-key", "insert-sorted",
+               "insert-sorted-key", "zip-map", "dotimes-aref", "path-loop"}
+MUTATIONS  == {"shrink", "shrink-many", "grow", "empty", "overwrite", "grow-then-shrink"}
+MUTENTRIES == {"top", "handler"}
+
 Recipes == [kind : {"vehicle"}, what : VEHICLES, shape : {"-"}, entry : ENTRIES]
            \cup [kind : {"sink"}, what : SINKS, shape : SHAPES, entry : SINKENTRIES]
+           \cup [kind : {"mutcb"}, what : TRAVERSERS, shape : MUTATIONS, entry : MUTENTRIES]
 
 \* a vehicle never terminates by itself: only a limit can end it, so the answer is an error - unless the entry point
 \* swallows errors (ignore-errors) or the recipe is a bounded walk
